@@ -52,8 +52,8 @@ CLAIMS = {
  "C09": ("Lean theorems about the model of Program::new's first stage (C09_stage1_rejects, step1_errors_mono, step1Name_double): every fault recorded by the stage (double declaration, double assignment, assignment to a built-in output or constant, constant reading a wire/undeclared name) makes Program.new return an error for every iteration order, and errors are never dropped. The full fault list of the statement is Spec.faults; fault injection of every class at every kind of name compares the real accept/reject and the (kind, name) multiset with the model, the verdict with Spec.faults, and requires the injected name in the diagnostics. C09_accepted: in every accepted program, under every iteration order, the value-writing actions have pairwise distinct outputs, none drives a register output or a constant, every wire read is a register output, a constant or the output of an earlier action, and the state-changing actions write no wire.",
          'Later stages (banks, unset wires, partial components) are covered by the model correspondence and Spec.faults oracle, not yet by theorems.',
          'Lean 4 proof (fold monotonicity) + exhaustive-by-class fault injection with differential oracle'),
- "C10": ("Lean theorems C10_cycle_iff, C10_sorter_spec, C10_never_panics, C10_reported_loop_is_real about a model of Graph::topological_sort/find_cycle that takes the hash-iteration orders as explicit data: for every order the sorter reports a cycle iff one exists, the reported cycle is real, a successful sort is a complete linear extension, and the panic!/underflow sites are unreachable. Tied to the code by replaying the real sorter's logged iteration orders (identical output required) on every digraph with <=4 nodes and random larger ones; program-level loop injection (through components, banks, write ports, constants) is compared with the reachability-based specification. C10_accepted_acyclic: the dependency graph of an accepted program's value-writing actions (u -> v when the definition or component driving v reads u) has no cycle, under every iteration order: a program with a combinational loop is never accepted; the sorter theorem is instantiated on the graphs the program builds (GBuild.sort_spec).",
-         'Program-level edge construction is covered by the loop-injection stream and Spec.faults, not yet by a theorem.',
+ "C10": ("Lean theorems C10_cycle_iff, C10_sorter_spec, C10_never_panics, C10_reported_loop_is_real about a model of Graph::topological_sort/find_cycle that takes the hash-iteration orders as explicit data: for every order the sorter reports a cycle iff one exists, the reported cycle is real, a successful sort is a complete linear extension, and the panic!/underflow sites are unreachable. Tied to the code by replaying the real sorter's logged iteration orders (identical output required) on every digraph with <=4 nodes and random larger ones; program-level loop injection (through components, banks, write ports, constants) is compared with the reachability-based specification. C10_accepted_acyclic: the dependency graph of an accepted program's value-writing actions (u -> v when the definition or component driving v reads u) has no cycle, under every iteration order: a program with a combinational loop is never accepted; the sorter theorem is instantiated on the graphs the program builds (GBuild.sort_spec). C10_reported_loop_real: whenever the diagnostics of Program::new (any statements, flags, iteration order) contain a loop report it is the only diagnostic and the wires it names form a cycle of the dependency relation of the statements (each is read by the definition, or is an input of the built-in component, that drives the next; the last drives the first) - every other diagnostic source of every stage is shown never to have the kind WireLoop (Program_new_nl).",
+         'Completeness at program level (a program whose statements have a dependency cycle and no other fault is rejected with a loop report) follows from C10_accepted_acyclic only for the value-writing actions; that every statement-level cycle shows up there is covered by the loop-injection stream and Spec.faults.',
          'Lean 4 proof (invariants over Kahn and DFS loops) + differential replay with logged hash orders'),
  "C18": ("The real step_with_output is run under the empty, full and random subsets of the five output options and must leave "
          "every wire, register, memory byte and status identical to the option-free run (which is compared with model and "
